@@ -53,6 +53,12 @@ impl Prop for C37 {
 
     fn gen(&self, rng: &mut Rng, n: usize, tier: Tier, out: &mut Vec<String>) {
         for _ in 0..n {
+            if rng.chance(1, 150) {
+                // the user of the policy: AsyncSecureChannel::connect against a server that refuses
+                out.push("reset default".to_string());
+                out.push(format!("connect {}", rng.range(0, 4)));
+                continue;
+            }
             let (ms, mn) = gen_dur(rng);
             let (is, inn) = gen_dur(rng);
             let lim = match rng.weighted(&[3, 1, 1, 3, 1, 1]) {
@@ -189,6 +195,52 @@ impl R {
     }
 }
 
+/// `Client::get_server_endpoints_from_url` (→ `AsyncSecureChannel::connect`) against a loopback
+/// listener that drops every connection; returns (gave up within the time allowed, connections seen)
+fn connect_attempts(limit: u32) -> (bool, usize) {
+    use std::sync::atomic::{AtomicBool, AtomicUsize, Ordering};
+    use std::sync::Arc;
+    let listener = std::net::TcpListener::bind("127.0.0.1:0").expect("bind");
+    let port = listener.local_addr().unwrap().port();
+    listener.set_nonblocking(true).unwrap();
+    let seen = Arc::new(AtomicUsize::new(0));
+    let stop = Arc::new(AtomicBool::new(false));
+    let (seen2, stop2) = (seen.clone(), stop.clone());
+    let acceptor = std::thread::spawn(move || {
+        while !stop2.load(Ordering::SeqCst) {
+            match listener.accept() {
+                Ok((sock, _)) => {
+                    seen2.fetch_add(1, Ordering::SeqCst);
+                    drop(sock);
+                }
+                Err(_) => std::thread::sleep(Duration::from_micros(200)),
+            }
+        }
+    });
+    let client = opcua::client::ClientBuilder::new()
+        .application_name("verif")
+        .application_uri("urn:verif")
+        .pki_dir(crate::fixtures::scratch_dir().join("c37-pki"))
+        .create_sample_keypair(false)
+        .trust_server_certs(true)
+        .session_retry_limit(limit as i32)
+        .session_retry_initial(Duration::from_millis(1))
+        .session_retry_max(Duration::from_millis(4))
+        .client()
+        .expect("client");
+    let rt = tokio::runtime::Builder::new_current_thread().enable_all().build().unwrap();
+    let url = format!("opc.tcp://127.0.0.1:{}/", port);
+    let gave_up = rt.block_on(async {
+        tokio::time::timeout(Duration::from_millis(2500), client.get_server_endpoints_from_url(url)).await.is_ok()
+    });
+    drop(rt);
+    // let the acceptor see the last connection
+    std::thread::sleep(Duration::from_millis(20));
+    stop.store(true, Ordering::SeqCst);
+    let _ = acceptor.join();
+    (gave_up, seen.load(Ordering::SeqCst))
+}
+
 fn show(o: Option<Duration>) -> String {
     match o {
         None => "none".to_string(),
@@ -230,6 +282,27 @@ impl Runner for R {
                 Some(0),
                 Duration::from_millis(500),
             ),
+            ["connect", lim] => {
+                let lim: u32 = lim.parse().unwrap();
+                if lim >= 64 {
+                    return ("bad-op".to_string(), Verdict::Ok);
+                }
+                let (gave_up, attempts) = connect_attempts(lim);
+                let class = format!("connect-limit-{}", if lim == 0 { "0" } else { "n" });
+                // the property, on the user of the policy: `limit` retries, i.e. limit + 1 attempts
+                let v = if !gave_up {
+                    Verdict::fail("connect_retry_limit", &class, format!("still retrying after {} attempts, limit {}", attempts, lim))
+                } else if attempts != lim as usize + 1 {
+                    Verdict::fail("connect_retry_limit", &class, format!("{} attempts, limit {}", attempts, lim))
+                } else {
+                    Verdict::Ok
+                };
+                if gave_up {
+                    (format!("ok gaveup=1 attempts={}", attempts), v)
+                } else {
+                    ("ok gaveup=0".to_string(), v)
+                }
+            }
             ["next"] => {
                 let (got, v) = self.one();
                 (format!("ok {} {}", show(got), self.state()), v)
